@@ -21,6 +21,32 @@ def reg(prop, module, configs=("default",), fn="check", tier="quick", level="oth
         PROPS[prop]["level"] = level
 
 
+ALL_CONFIGS = ("default", "pu", "ip", "ip+pu", "utf16", "pattern", "alloc")
+
+# thorough tier: every per-configuration rule is run on all seven feature configurations, except where the rule's
+# anchors do not exist in a configuration by design (one line of reason each; confirmed on the unchanged tree).
+THOROUGH_SKIP = {
+    ("scm", "check", "utf16"): "the utf16 build forms no byte-literal instructions (optimizer::form_literal_bytes is cfg'd out); "
+                               "the instruction-set floor was counted on the default build",
+    ("extra", "check_asciiguard", "utf16"): "byte-set lowerings are cfg'd out of the utf16 build",
+}
+PATTERN_ONLY = {("tiling", "check")}
+
+
+def widen(rule):
+    """Configurations a rule runs on in the thorough tier."""
+    if not rule["per_config"] and len(rule["configs"]) > 1:
+        return rule["configs"]
+    key = (rule["module"], rule["fn"])
+    if key in PATTERN_ONLY:
+        return rule["configs"]
+    out = list(rule["configs"])
+    for c in ALL_CONFIGS:
+        if c not in out and key + (c,) not in THOROUGH_SKIP:
+            out.append(c)
+    return tuple(out)
+
+
 def _register_all():
     from . import registrations  # noqa: F401
 
@@ -54,7 +80,12 @@ def main(argv):
         return 2
     t0 = time.time()
     spec = PROPS[args.prop]
-    rules = [r for r in spec["rules"] if r["tier"] == "quick" or args.tier == "thorough"]
+    rules = [dict(r) for r in spec["rules"] if r["tier"] == "quick" or args.tier == "thorough"]
+    if args.tier == "thorough":
+        for r in rules:
+            wide = widen(r)
+            if wide != r["configs"]:
+                r["configs"], r["per_config"] = wide, True
     configs = []
     for r in rules:
         for c in r["configs"]:
